@@ -18,6 +18,7 @@ import Hdl21Model.Lemmas.Export
 import Hdl21Model.Lemmas.ExportWF
 import Hdl21Model.Lemmas.ConnTypes
 import Hdl21Model.Lemmas.Orphanage
+import Hdl21Model.Lemmas.ModulePipe
 namespace Hdl21.Props.C06
 open Hdl21 Hdl21.ExportOrder
 
@@ -452,5 +453,83 @@ example : checkConn 7 (.concat [.slice (.sig "s" 2 (some 7)) (.int 1), .sig "t" 
     sigsOK [("s", 2), ("t", 1)] (.concat [.slice (.sig "s" 2) (.int 1), .sig "t" 1]) = true := by decide
 
 end Ownership
+
+
+/-! ## the passes composed: one F1 module through the default pass list and the exporter -/
+section Pipeline
+open Hdl21.Pkg Hdl21.RoundTrip Hdl21.ExportWF Hdl21.ModulePipe
+
+/-- **The passes establish what the exporter needs.** For a module of fragment F1 (ModulePipe.lean: connections are arbitrarily
+    nested slices and concatenations of signals), whose namespace is a namespace (`ModOK`: one object per name, positive widths,
+    directed ports, dict keys distinct): when the default pass list — `Orphanage, ConnTypes, SliceResolver, ConnTypesRepeat,
+    OrphanageRepeat`, composed from the models each pass has of its own — answers, and the exporter does not refuse a stepped
+    slice, the state the passes leave is `EWF`.  No hypothesis about intermediate states remains. -/
+theorem elaborated_module_is_EWF (fuel : Nat) (ctx : PRef → Option (List (String × Nat))) (h e : HModule) (p : PModule)
+    (hm : ModOK ctx h) (he : elabModule fuel ctx h = .ok e) (hx : RoundTrip.exportModule e = .ok p) :
+    EWF ctx e = true := by
+  obtain ⟨hnames, hwid, hdir, hinames, hcn, hctx⟩ := hm
+  obtain ⟨_, _, hs, hc', ho'⟩ := elabModule_inv he
+  obtain ⟨_, hsig, hport, hrel⟩ := sliceResolver_inv hs
+  -- the exporter exported every connection
+  have hexp : ∀ r ∈ e.instances, ∀ pc ∈ r.conns, ∃ t, exportTarget pc.2 = .ok t := by
+    unfold RoundTrip.exportModule at hx
+    cases h1 : exportPorts e.ports with
+    | error x => simp [h1] at hx
+    | ok q =>
+      cases h2 : exportInsts e.instances with
+      | error x => simp [h1, h2] at hx
+      | ok ps =>
+        intro r hr pc hpc
+        obtain ⟨pi, _, _, _, _, hcs⟩ := forall2_mem_left (exportInsts_spec _ _ h2) r hr
+        obtain ⟨pt, _, _, ht⟩ := forall2_mem_left hcs pc hpc
+        exact ⟨pt.2, ht⟩
+  unfold EWF
+  simp only [Bool.and_eq_true, decide_eq_true_eq, List.all_eq_true]
+  rw [hsig, hport]
+  refine ⟨⟨⟨⟨hnames, fun s hs' => by simpa using hwid s hs'⟩, ?_⟩, ?_⟩, ?_⟩
+  · rw [List.all_eq_true] at hdir; exact hdir
+  · rw [forall2_map_eq (f := fun (i : HInst) => i.name) (g := fun (i : HInst) => i.name) (fun a b hr => hr.1) hrel]
+    exact hinames
+  · intro r hr
+    obtain ⟨ports, hcr, hpass⟩ := connTypes_inst hc' r hr
+    obtain ⟨i, hi, _, _, _, hcs⟩ := forall2_mem_right hrel r hr
+    have hnd : (r.conns.map (·.1)).Nodup := by
+      rw [forall2_map_eq (f := fun (pc : String × SConn) => pc.1) (g := fun (pc : String × SConn) => pc.1)
+        (fun a b hr => hr.1) hcs]
+      exact hcn i hi
+    have hsl : sigList e = sigList h := sigList_of_resolved hs
+    have := checked_instance_is_instOK ctx (sigList e) r ports hcr (hctx _ _ hcr) hnd hpass
+      (fun pc hpc => ⟨orphanage_inst ho' r hr pc hpc, hexp r hr pc hpc⟩)
+    exact this
+
+/-- **C06 for the module the composed passes hand to the exporter**: whatever `pipeline` (default pass list, then
+    `export_module`) returns for an F1 module has none of the module-level defects C06 lists — signal, port and instance names
+    unique, every port a declared signal, no zero-width signal, every instance of a defined target with each of its ports
+    connected exactly once to a target over declared signals, inside their widths, as wide as the port — in whatever package
+    it ends up. -/
+theorem module_pipeline_wf (fuel : Nat) (ctx : PRef → Option (List (String × Nat))) (h : HModule) (p : PModule)
+    (hm : ModOK ctx h) (hp : pipeline fuel ctx h = .ok p) :
+    ∀ (pkg : Package) (earlier : List PModule), (∀ r, targetPorts pkg earlier r = ctx r) → moduleProblems pkg earlier p = [] := by
+  unfold pipeline at hp
+  cases he : elabModule fuel ctx h with
+  | error x => simp [he] at hp
+  | ok e =>
+    simp only [he] at hp
+    have hw := elaborated_module_is_EWF fuel ctx h e p hm he hp
+    obtain ⟨p', hp', _, _, hall⟩ := export_module_wf ctx e hw
+    rw [hp] at hp'
+    injection hp' with hp'
+    subst hp'
+    exact hall
+
+/-- non-vacuity: `exH` (a resistor between bit 1 of a bus and a port) goes through, and a reversed slice of a concatenation is
+    resolved on the way -/
+example : (pipeline 40 exCtxW exH).toOption.map (fun p => p.instances.map fun i => i.conns.map fun pc => (pc.1, readTarget p.signals pc.2)) =
+    some [[("p", [("s", 1)]), ("n", [("a", 0)])]] := by decide +kernel
+example : (pipeline 40 (fun _ => some [("p", 2)])
+    ⟨"T", [⟨"s", 2, none⟩, ⟨"t", 2, none⟩], [], [⟨"x", .ext "d" "n", [], [("p", .slice (.concat [.sig "s" 2, .sig "t" 2]) (.range (some 1) (some 3) none))]⟩]⟩).toOption.map
+      (fun p => p.instances.map fun i => i.conns.map fun pc => (pc.1, readTarget p.signals pc.2)) =
+    some [[("p", [("s", 1), ("t", 0)])]] := by decide +kernel
+end Pipeline
 
 end Hdl21.Props.C06
